@@ -411,7 +411,7 @@ def shard(ctx):
         judge(ctx, "regex_replace", "query", rule_text([], "regex_replace(%s, %s, %s)" % (q, gen.glit(pat), gen.glit(repl))), [vals, [pat], [repl]], detail)
         judge(ctx, "regex_replace", "variable", rule_text([("s", q), ("p", gen.glit(pat)), ("t", gen.glit(repl))], "regex_replace(%s, %p, %t)"), [vals, [pat], [repl]], detail)
     # ---- json_parse(JSON text of D) == D on random documents; result behaves like a value in later clauses
-    n = 12 if ctx.quick else 400
+    n = 12 if ctx.quick else 6000
     for t in range(n):
         d = gen.gen_doc(rng)
         doc2 = json.dumps({"text": json.dumps(d), "orig": d})
@@ -427,7 +427,7 @@ def shard(ctx):
         else:
             ctx.res.distinct.add(("json-roundtrip", len(json.dumps(d)) // 50))
     # ---- random strings through the unary string functions
-    n = 60 if ctx.quick else 3000
+    n = 60 if ctx.quick else 40000
     alphabet = "abXY z09/%+-_.é"
     for t in range(n):
         s = "".join(rng.choice(alphabet) for _ in range(rng.randint(0, 8)))
